@@ -528,6 +528,15 @@ static void generate(Rng &rng, const Opts &o, std::vector<std::string> &lines) {
         }
         lines.push_back(l.get());
     }
+    // targeted ILU(k) stream, k >= 2, structurally non-symmetric random patterns: a position reached first through a
+    // high-level path and later through a lower-level one (the level must be lowered to the minimum, and further
+    // fill generated from it) — too rare in the mixed stream above
+    for (long k = 0; k < (o.thorough() ? 1500 : 160); ++k) {
+        long n = rng.range(7, 11); Mat S = gen_sparse(rng, n, n, (int)rng.range(15, 30)); auto rows = to_rows(S);
+        for (long i = 0; i < n; ++i) { bool has = false; for (auto &cv : rows[i]) if (cv.first == i) { cv.second = Q(rng.range(8, 12)); has = true; } if (!has) { rows[i].push_back({i, Q(rng.range(8, 12))}); std::sort(rows[i].begin(), rows[i].end(), [](auto &a, auto &b){ return a.first < b.first; }); } }
+        Mat A = from_rows(n, n, rows);
+        lines.push_back((Line() << "relax_iluk_factors" << rng.range(2, 3) << A).get());
+    }
     // malformed stream: both sides must answer bad-input
     lines.push_back("relax_jacobi_pre 1 2 2 1 0 1 1 1 1 2 1 1 2 1 1 1 1");          // vector sizes do not fit
     lines.push_back("relax_gs_pre 2 2 1 0 1 1 5 1 2 1 1 2 1 1 2 0 0");              // column 5 in a 2x2 matrix
